@@ -25,7 +25,7 @@ Variable pv : N.
 Variable bound : N.
 Variable u : counts.
 
-Lemma L_expr_zero : L_expr pv sv bound u O.
+Lemma L_expr_zero : L_expr pv u O.
 Proof. intros k x ctx c code v c' sc l H. discriminate. Qed.
 
 Lemma used_plain (l : alut) t (ss : list stmt) : snd (if 0 <? count_of u t then (ss, l) else ([], l)) = l.
@@ -70,7 +70,7 @@ Proof.
   apply (cshape_plain u l2 (IAssign t vb) c c'); [lia | reflexivity | reflexivity | apply used_plain].
 Qed.
 
-Lemma L_expr_succ g : L_expr pv sv bound u g -> L_expr pv sv bound u (S g).
+Lemma L_expr_succ g : L_expr pv u g -> L_expr pv u (S g).
 Proof.
   intros IH k x ctx c code v c' sc l Hlow Hfrag.
   destruct k as [|k]; [discriminate|].
@@ -163,6 +163,6 @@ Proof.
     eexists _, _. split; [|lia]. eapply (cshape_iis u l _ c); [lia | reflexivity | reflexivity].
 Qed.
 
-Theorem L_expr_all g : L_expr pv sv bound u g.
+Theorem L_expr_all g : L_expr pv u g.
 Proof. induction g; [apply L_expr_zero | apply L_expr_succ; assumption]. Qed.
 End Sim.
